@@ -20,3 +20,9 @@ Definition py_b2a_hex_encode (v:pyval) : res :=
               | None => Exc (ValueError [])
               end
   | _ => Exc AttributeError end.
+
+(* str.lstrip() / str.rstrip() / str.split() with no argument: Unicode white space as in lib/Str.v *)
+Definition py_lstrip (v:pyval) : res := match v with VStr s => Normal (VStr (map Z.of_N (lstrip (map Z.to_N s)))) | _ => Exc AttributeError end.
+Definition py_rstrip (v:pyval) : res := match v with VStr s => Normal (VStr (map Z.of_N (rstrip (map Z.to_N s)))) | _ => Exc AttributeError end.
+Definition py_split_ws (v:pyval) : res :=
+  match v with VStr s => Normal (VList (map (fun w => VStr (map Z.of_N w)) (split_ws (map Z.to_N s)))) | _ => Exc AttributeError end.
